@@ -1,14 +1,5 @@
 from vf import Lemma
 
-PROPS = {"C12": {"level": "proof",
-                 "text": "Proof: the contract of each of the five setters (new option byte == documented per-dimension overwrite; undocumented values change nothing; frame = al->assembly_opt only) is enforced by DFCC for every one of the 256 option bytes and every int option value; asm_sib/asm_set_all are proved against the contracts of their callees. Any finite setter sequence follows by induction over one arbitrary call.",
-                 "note": "Documented expansion taken from man/asm_set_all.3 (agrees with tools/README.md; the header comment omits no-base).",
-                 "technique": "CBMC function contracts enforced with goto-instrument --dfcc, callees replaced by contract",
-                 "design_ref": "DESIGN.md 4.12",
-                 "trusted": ["man/asm_set_all.3 and src/assemblyline.h:171-261 as the documented expansion (contracts/c12_contracts.h)"],
-                 "assumptions": ["'behaves according to' the stored bits is the subject of C11; C12 proves the stored bits",
-                                 "any finite setter sequence follows by induction over one arbitrary call from an arbitrary state (paper step)"],
-                 "explanation": "each setter's contract is enforced for all 256 option bytes x every int option value; frame = assembly_opt only"}}
 
 
 def lemmas():
